@@ -15,7 +15,7 @@ if [ -z "$skip" ]; then
 fi
 cd /verif
 for p in $ids; do
-  o=$(PYTHONPATH=$wt VERIF_ALLOW_REPO=$wt timeout 3000 ./check $p 2>&1); rc=$?
+  mkdir -p /tmp/mutwt/$ID.ev; o=$(PYTHONPATH=$wt VERIF_ALLOW_REPO=$wt VERIF_EVIDENCE_DIR=/tmp/mutwt/$ID.ev VERIF_REPLAY_DIR=/tmp/mutwt/$ID.ev timeout 3000 ./check $p 2>&1); rc=$?
   echo "check $p rc=$rc $(echo "$o" | grep -E "^C[0-9]+ tier|VIOLATION|INFRA" | tr '\n' ' ' | cut -c1-260)"
 done
 git -C $wt checkout -q -- .
